@@ -194,6 +194,10 @@ def execute(case_dir, files0, steps, template_home, sabotage=False, keep=False, 
         if any(m["kind"] == "timeout" for m in mm):
             res["inconclusive"].append(f"step {si}: command timed out ({argv})")
             break
+        if r_cln.panic and r_inc.panic:
+            bump("steps_both_twins_panicked_(C11_matter)")
+            res.setdefault("both_panic", " | ".join(l for l in r_cln.err.splitlines() if "panicked at" in l or "called `" in l)[:300])
+            continue
         if r_cln.panic and not r_inc.panic:
             # a panic of the clean build is not a C04 matter (C11 owns it); the step cannot be judged
             bump("steps_skipped_clean_panic")
@@ -344,6 +348,8 @@ def main():
                 run.nontrivial(json.dumps([res.get("shapes"), res.get("kinds_seq")]))
             if res.get("sample"):
                 run.sample(res["sample"], cap=3)
+            if res.get("both_panic"):
+                run.note(f"case {res['case']}: both twins panicked alike (not a C04 matter, see notes/C04.md): {res['both_panic']}")
             for r in res["inconclusive"]:
                 run.inconclusive(f"case {res['case']}: {r}")
             for v in res["violations"]:
